@@ -423,15 +423,22 @@ class Handoff:
 class HandoffAnalysis:
     def __init__(self, submit_names=(), lib_fn=None):
         self.memo = {}
+        self.memo_inh = {}
+        self.inherited = {}
         self.submit_names = set(submit_names)   # task-system functions that pass a task to the scheduler
         self.lib_fn = lib_fn or (lambda q: None)
 
-    def analyse(self, tu, f, pidx, stack=()):
+    def analyse(self, tu, f, pidx, stack=(), inherit=None):
+        """inherit: member handles {field id: wrap event} established by a caller on the same object (the constructor wrapped the
+        closure into a member task, a helper member submits it)"""
         key = (id(tu), f['id'], pidx)
-        if key in self.memo:
+        if inherit:
+            self.inherited.setdefault(key, {}).update(inherit)
+        if key in self.memo and not (inherit and not self.memo_inh.get(key)):
             return self.memo[key]
         if key in stack:
             return None
+        self.memo_inh[key] = bool(self.inherited.get(key))
         h = self._analyse(tu, f, pidx, stack + (key,))
         self.memo[key] = h
         return h
@@ -456,7 +463,7 @@ class HandoffAnalysis:
         smart_vars = {}    # var decl id -> True if the variable is a std::unique_ptr / shared_ptr owning the task
         keeps = {}         # submit call node id -> smart pointer variable that still owns the task after the hand-off
         smart_release = {} # node id of smart.release() -> variable
-        handles_mem = {}   # field id -> wrap event      (member task wrapping the closure)
+        handles_mem = dict(self.inherited.get((id(tu), f['id'], pidx), {}))   # field id -> wrap event (member task wrapping the closure)
 
         def carrier_arg(a):
             c = core(tu, a)
@@ -491,6 +498,20 @@ class HandoffAnalysis:
                     if hits[0][0] != 0:
                         h.undecided.append('closure passed to std::thread as an argument, not as the callable (%s)' % tu.loc(n))
                         continue
+                    if owner[0] == 'temp':       # handle = std::thread(closure): the temporary is moved into the assigned object
+                        p2 = tu.par(n)
+                        hops2 = 0
+                        while p2 is not None and hops2 < 8 and p2.get('kind') in ('ImplicitCastExpr', 'ParenExpr', 'ExprWithCleanups',
+                                                                                  'MaterializeTemporaryExpr', 'CXXBindTemporaryExpr',
+                                                                                  'CXXFunctionalCastExpr'):
+                            p2 = tu.par(p2)
+                            hops2 += 1
+                        if p2 is not None and p2.get('kind') == 'CXXOperatorCallExpr' and tu.sd(p2).get('q') == 'std::thread::operator=':
+                            sd2, obj2, args2 = call_parts(tu, p2)
+                            if obj2 is not None and member_of_this(tu, obj2):
+                                owner = ('member', member_of_this(tu, obj2))
+                            elif obj2 is not None and decl_ref(tu, obj2):
+                                owner = ('var', decl_ref(tu, obj2))
                     kind = 'thread-member' if owner[0] == 'member' else 'thread-local'
                     ev[n['id']] = dict(kind=kind, node=n, member=owner[1] if owner[0] == 'member' else None, owner=owner)
                     consumed.add(hits[0][1]['id'])
@@ -544,7 +565,8 @@ class HandoffAnalysis:
                     continue
                 callee = tu.callee_fn(n)
                 if callee is not None and tu.cfg(callee) is not None:
-                    sub = self.analyse(tu, callee, hits[0][0], stack)
+                    same_obj = obj is not None and is_this_expr(tu, obj) and callee.get('recid') == f.get('recid')
+                    sub = self.analyse(tu, callee, hits[0][0], stack, inherit=dict(handles_mem) if same_obj and handles_mem else None)
                     ev[n['id']] = dict(kind='fwd', node=n, callee=callee, pidx=hits[0][0], sub=sub, member=None)
                     consumed.add(hits[0][1]['id'])
                     continue
@@ -626,6 +648,8 @@ class HandoffAnalysis:
                     continue
                 if p is not None and p.get('kind') in ('UnaryExprOrTypeTraitExpr', 'DecltypeType', 'CXXNoexceptExpr'):
                     continue
+                if p is not None and p.get('kind') in ('CStyleCastExpr', 'CXXStaticCastExpr', 'CXXFunctionalCastExpr') and p.get('castKind') == 'ToVoid':
+                    continue        # explicitly discarded
                 h.undecided.append('use of the closure is not recognised: %s (%s)' % (tu.show(p) if p is not None else '?', tu.loc(x)))
         ev.pop('_aliased', None)
         h.events = [e for e in ev.values() if e['kind'] != 'release']
